@@ -7,6 +7,10 @@
 (*   failing      func failing_testN(...) bool {                            *)
 (*   underscore   func test_N(...)          (still "named test...")         *)
 (*   unicode      func test<non-ASCII letter>N(...)                         *)
+(*   oneline      func testN() bool { return true }   (gofmt keeps a body   *)
+(*                that was written on one line)                              *)
+(*   bracecomment func testN() bool { // note      (comment after the brace) *)
+(*   failingoneline   func failing_testN() bool { return true }             *)
 (*   disabled     func disabled_testN(...                                   *)
 (*   helper       func helperN(...                                          *)
 (*   method       func (r *T) testN(...      a method, not a top-level function *)
@@ -17,17 +21,18 @@
 (*   onelinecomment   /* text */     a one-line block comment at column 0   *)
 (* File kinds: src (x.go), testish (x_tests.go: an ordinary source whose    *)
 (* name merely contains _test), gotest (x_test.go), gold (x.gold.v),        *)
-(* backup (x.go~).  Only src and testish files are read.                    *)
+(* exttest (x_test.go whose package clause is <pkg>_test), backup (x.go~).   *)
+(* Only src and testish files are read.                                     *)
 EXTENDS Integers, Sequences, TLC, Json
 
 CONSTANT Cases        \* sequence of directories: each a sequence of [kind, name, lines: Seq([class, n])]
 
-IsTestLine(l) == l.class \in {"test", "failing", "underscore", "unicode"}
+IsTestLine(l) == l.class \in {"test", "failing", "underscore", "unicode", "oneline", "bracecomment", "failingoneline"}
 Read(f) == f.kind \in {"src", "testish"}
 
 RECURSIVE LineTests(_, _)
 LineTests(lines, i) == IF i > Len(lines) THEN <<>>
-                       ELSE (IF IsTestLine(lines[i]) THEN <<[n |-> lines[i].n, fail |-> IF lines[i].class = "failing" THEN 1 ELSE 0]>> ELSE <<>>)
+                       ELSE (IF IsTestLine(lines[i]) THEN <<[n |-> lines[i].n, fail |-> IF lines[i].class \in {"failing", "failingoneline"} THEN 1 ELSE 0]>> ELSE <<>>)
                             \o LineTests(lines, i + 1)
 RECURSIVE DirTests(_, _)
 DirTests(dir, i) == IF i > Len(dir) THEN <<>>
